@@ -13,6 +13,10 @@ THEOREMS = [
     "Mtv.Handshake.hs_save_only_if_all_checks",
     "Mtv.Handshake.hs_abort_is_error",
     "Mtv.Handshake.hs_no_encrypted_before_success",
+    "Mtv.Handshake.conn_matches_source",
+    "Mtv.Handshake.reader_without_key_never_dials",
+    "Mtv.Handshake.hs_abort_stops_everything",
+    "Mtv.Handshake.hs_nothing_after_abort",
 ]
 RULE = ("one operation = one key exchange of the real client (NewMTProto + CreateConnection over loopback TCP, "
         "Intermediate transport) with a replay server that answers the i-th request with the i-th prepared body; "
@@ -42,7 +46,20 @@ RULE = ("one operation = one key exchange of the real client (NewMTProto + Creat
         "BYTES MOVED: the right value has 1-3 leading and/or 1-2 trailing zero bytes (the client's nonce is a draw "
         "of the operation, server_nonce the server's choice, the hash forced by counting the server's DH secret "
         "upwards) and the echo is the value rotated by whole bytes over its zero bytes (00||X -> X||00, X||00 -> "
-        "00||X, 00||Y||00 -> Y||0000 ...), 8 moves x 7 sites per round. distinct = distinct operation lines; each "
+        "00||X, 00||Y||00 -> Y||0000 ...), 8 moves x 7 sites per round. The NETWORK side of the aftermath, c07.gone: k "
+        "clients (8, thorough 12) in one operation, one exchange each - the steps at which an exchange can be abandoned "
+        "in turn: reply 1, 2, 3 wrong or undecodable, a wrong constructor; exchanges drawn from all the above - and, "
+        "once every CreateConnection has returned, all servers at the same moment close / half-close / reset / keep "
+        "the connection of the exchange (or each closed it AT ONCE, in the same breath as the reply the client gives "
+        "up at: the EOF races the return of CreateConnection) while later connections to the address are served by a conformant server "
+        "holding the key / answered with the old script / accepted and left unanswered / accepted and closed / "
+        "refused (10 combinations, thorough all 25 x 2); for 1.5 s (thorough 3 s) everything is logged: connections "
+        "accepted, unencrypted and encrypted frames on them and on the old connection, Store calls, the client's "
+        "Warnings (a refused dial shows there), the encrypted flag. After an abandoned exchange: NOTHING - no "
+        "connection attempt, no frame, no store; the mirror, a client whose exchange succeeded among them: it "
+        "connects again once, runs no second exchange, and its next request arrives under the key of the exchange. "
+        "The Lean side answers with the connection machine (createConnection + connFeed over the events of that "
+        "server behaviour). distinct = distinct operation lines; each "
         "is compared with the Lean client machine (outcome class, the three request bodies, key, salt, flags, "
         "stores) and judged by the independent reply-sequence judge")
 
@@ -82,6 +99,11 @@ ASSUMPTIONS = [
     "square-and-multiply is proved equal to b^e % m (powMod_eq)",
     "the receive goroutine + service channel + makeRequest are modelled as 'the reply body is decoded and handed to "
     "the waiting step'; goroutine scheduling, TCP and the transport framing are not modelled (C08 covers framing). "
+    "Around the exchange (Mtv.Handshake.Conn): CreateConnection = dial, reading routine, makeAuthKey, and on its "
+    "error path m.stopRoutines(), and the reading routine's EOF case reconnects only for an object that holds a "
+    "key (pending_fixes/C07-failed-exchange-stops-routines.v2); a stopped object reacts to no network event. That `stopRoutines` (context cancellation + closing the socket) really ends the reading routine "
+    "is assumed by the model and OBSERVED by the c07.gone operations (bounded window), not proved; what a running "
+    "reading routine does with frames of an established session is other properties' business. "
     "An rpc_error whose text is PHONE_MIGRATE_n (reconnect to another DC) is outside the model",
     "the theorems describe makeAuthKey as repaired by the C06-*/C07-* fix commits; `ClientSane` (hypothesis of "
     "hs_abort_is_error) constrains only the client's own registry, key, draws and primitives, never the replies",
